@@ -24,7 +24,7 @@ Lemma run_hook_calls cfg st h k st' r ev :
 Proof.
   unfold run_hook, hook_fires. destruct (c_dry cfg), (c_hooks cfg h); cbn;
     try (intros E; inversion E; subst; split; reflexivity).
-  destruct (c_faults cfg h k); intros E; inversion E; subst; split; reflexivity.
+  destruct (c_faults cfg h k), (c_aborts cfg h k); intros E; inversion E; subst; split; reflexivity.
 Qed.
 
 (* ---- the documented outcome-to-status mapping *)
